@@ -4,7 +4,8 @@ import itertools
 from collections import namedtuple
 
 from .model import AnalysisError, NotConst, fold, node_src, is_self_attr, call_name
-from .paths import Interp, Domain, Env, TOP, NONE, Const, TupleV, Exc, ORD, fmt_trace, Opaque, FuncRef
+from .colls import ExactCollections
+from .paths import Interp, Domain, Env, TOP, NONE, Const, TupleV, Exc, ORD, fmt_trace, Opaque, FuncRef, Ctx
 from .report import walk_no_nested
 
 LEVEL = "other"
@@ -34,7 +35,7 @@ PartialV = namedtuple("PartialV", "fn args kwargs")
 TYPES = ["bytes", "str", "int", "bool", "float", "NoneType", "list", "dict", "tuple", "MyStr(str)", "MyInt(int)", "MyBytes(bytes)", "object"]
 
 
-class SerDomain(Domain):
+class SerDomain(ExactCollections, Domain):
     async_enabled = False
     subscript_may_raise = False
     unpack_may_raise = False
@@ -56,10 +57,31 @@ class SerDomain(Domain):
             try:
                 return Const(fold(self.module.assigns[name], self.module))
             except NotConst:
+                # not a literal constant (e.g. a dispatch table that mentions functions): evaluate the display
+                expr = self.module.assigns[name]
+                if isinstance(expr, (ast.Tuple, ast.List)) and all(isinstance(n, (ast.Tuple, ast.List, ast.Constant, ast.Name, ast.Load, ast.expr_context)) for n in ast.walk(expr)) and not getattr(self, "_in_table", False):
+                    self._in_table = True
+                    try:
+                        oks, excs = Interp(self, self.fn.node, self.prog).ev(_as_tuples(expr), Env(), Ctx(self.fn.node))
+                    finally:
+                        self._in_table = False
+                    if len(oks) == 1 and not excs:
+                        return oks[0][0]
                 return Opaque("module:" + name)
         return TOP
 
+    def never_none(self, v):
+        return isinstance(v, (TypeTag, FuncRef, PartialV, Obj)) or super().never_none(v)
+
+    def truth(self, v, state=None):
+        if isinstance(v, (TypeTag, FuncRef, PartialV)):
+            return True
+        return super().truth(v, state)
+
     def attr_load(self, objval, node, state):
+        b = self.coll_attr(objval, node) if not isinstance(objval, TupleV) else None
+        if b is not None:
+            return b
         if isinstance(node.value, ast.Name) and node.value.id in ("pickle", "zlib"):
             return Opaque("%s.%s" % (node.value.id, node.attr))
         if is_self_attr(node):
@@ -131,10 +153,13 @@ class SerDomain(Domain):
                 return [("ok", Enc("encode", args[0].v if args and isinstance(args[0], Const) else "utf-8", Sym("value")), state)]
             if obj == Sym("stored") and attr == "decode":
                 return [("ok", Dec("decode", args[0].v if args and isinstance(args[0], Const) else "utf-8"), state)]
-        if name == "int" and args and args[0] == Sym("stored"):
+        if (name == "int" or fval == TypeTag("int")) and args and args[0] == Sym("stored"):
             return [("ok", Dec("int", None), state)]
-        if name == "str" and args and args[0] == Sym("value"):
+        if (name == "str" or fval == TypeTag("str")) and args and args[0] == Sym("value"):
             return [("ok", Enc("str", None, Sym("value")), state)]
+        r = self.coll_call(node, fval, args, kwargs, state)
+        if r is not None:
+            return r
         if name.startswith("logging."):
             return [("ok", NONE, state)]
         if name in ("partial", "functools.partial") and args and isinstance(args[0], FuncRef):
@@ -153,6 +178,13 @@ class SerDomain(Domain):
             if res is not None:
                 return res
         return [("ok", TOP, state)]
+
+
+def _as_tuples(expr):
+    """A module-level list/tuple display as nested tuples (an immutable table: no heap object needed)."""
+    if isinstance(expr, (ast.Tuple, ast.List)):
+        return ast.copy_location(ast.Tuple(elts=[_as_tuples(x) for x in expr.elts], ctx=ast.Load()), expr)
+    return expr
 
 
 def _unpickle_opts(kwargs):
@@ -284,6 +316,29 @@ def run(chk):
                     enc_ok_for_type = inverse_ok(tag, enc, _ideal_dec(enc))[0]
                     (r2 if enc_ok_for_type else r3).fail(construct, "exact type %s is written as %s with flags %d and read back%s through %s: %s" % (tag, _e(enc), fl, " (COMPRESSED bit still set, as CompressedSerde passes it)" if extra else "", _e(dec), why + vnote), fn=ser if not enc_ok_for_type else des)
     r2.floor("writer rows (type class x path)", n_rows, 13)
+
+    # ------------------------------------------------------------------ R7 no memory between calls
+    r7 = chk.rule("C15.R7", "the (de)serializers keep nothing from one call to the next: no caching decorator, no global, no module-level or default-argument object written - what deserialize returns is a new value computed from the stored bytes alone")
+    from .report import memory_between_calls
+
+    n_f = 0
+    mod = prog.module(SER)
+    funcs = list(mod.functions.values()) + [m_ for c_ in mod.classes.values() for m_ in c_.methods.values()]
+    for f in funcs:
+        n_f += 1
+        probs = memory_between_calls(f)
+        if f.cls is not None and f.name != "__init__":
+            # the serde objects are configuration: their methods do not write instance state either
+            for n in ast.walk(f.node):
+                if isinstance(n, ast.Attribute) and isinstance(n.ctx, (ast.Store, ast.Del)) and isinstance(n.value, ast.Name) and n.value.id == "self":
+                    probs.append((n, "writes self.%s" % n.attr))
+                if isinstance(n, ast.Subscript) and isinstance(n.ctx, (ast.Store, ast.Del)) and is_self_attr(n.value):
+                    probs.append((n, "writes into self.%s" % n.value.attr))
+        for n, what in probs:
+            r7.fail("%s:memory:%s" % (f.qualname, what.split(":")[0].split("`")[0].strip().replace(" ", "-")[:40]), "%s %s: two reads of the same item can return one shared object (a caller that changes what it got changes what every later reader gets), or an answer that depends on earlier calls" % (f.qualname, what), fn=f, node=n)
+        if not probs:
+            r7.ok("%s keeps no state between calls" % f.qualname, sample=False)
+    r7.floor("functions of serde.py inspected", n_f, 8)
 
     # ------------------------------------------------------------------ R5 compression decision
     r5 = chk.rule("C15.R5", "compression decision over all orderings: COMPRESSED is set iff the compressor's output is what is stored; the stored form is never longer than the uncompressed one; decompress iff the bit is set")
